@@ -225,6 +225,32 @@ func pairPhase(rounds int) {
 		}
 	}
 	round.Store(-1)
+	// a hot entry: many lookups of one stored key at the same time, nothing is stored or evicted meanwhile -
+	// every one of them finds it (readers do not exclude each other; MemCache: GetTry fails only for a writer)
+	{
+		k := 3000001
+		c.Store(keyBytes(k), epoch.Add(time.Duration(k*100000+1)*time.Second), exp, mkValue(k, 1, exp, 40), false)
+		var misses, gets atomic.Int64
+		var wg sync.WaitGroup
+		for g := 0; g < 16; g++ {
+			wg.Add(1)
+			go func() {
+				defer wg.Done()
+				kb := keyBytes(k)
+				for i := 0; i < 20000; i++ {
+					v, _, _ := c.Get(kb)
+					gets.Add(1)
+					if v == nil {
+						misses.Add(1)
+					} else {
+						pool.ReleaseBuf(v)
+					}
+				}
+			}()
+		}
+		wg.Wait()
+		tr.Emit("mc.hot", "gets", gets.Load(), "misses", misses.Load())
+	}
 	tr.Emit("mc.sum", "gets", rounds, "hits", rounds, "stores", 2*rounds, "odd", neg)
 	fmt.Printf("pairs=%d not-positive=%d events=%d\n", rounds, neg, tr.N)
 }
